@@ -429,8 +429,36 @@ tdone:
 	vf_fail(NULL, "unknown recoding");
 }
 
+
+/* GLV decomposition with the lattice of a shipped endomorphism curve: args curve id, k (0 <= k < n). bn_rec_glv must return k0 + k1 * lambda = k (mod n)
+ * for a root lambda of x^2 + x + 1 modulo n (the same root for every scalar of a curve) with both halves at most about sqrt(n) long. */
+#if WSIZE == 64 && defined(WITH_EP) && defined(EP_ENDOM) && FP_PRIME == 256
+#define HAVE_GLV 1
+static void do_glv(vf_case *c) {
+	int th; static long cur = -1; static mpz_t n, lam[2]; static int init = 0, which = -1; if (!init) { init = 1; mpz_inits(n, lam[0], lam[1], NULL); }
+	long id = mpz_get_si(c->v[0]);
+	if (cur != id) { VF_TRY(th, ep_param_set((int)id)); if (th || !ep_curve_is_endom()) { vf_fail(NULL, "curve %ld has no endomorphism / was refused", id); return; } cur = id; which = -1; bn_t r; bn_new(r); ep_curve_get_ord(r); vf_bn_get(n, r);
+		/* the two roots of x^2 + x + 1: (-1 +- sqrt(-3)) / 2, square root by exponentiation search on a non-residue-free route: n = 1 mod 3, use g^((n-1)/3) */
+		mpz_t g, e, w; mpz_inits(g, e, w, NULL); mpz_sub_ui(e, n, 1); mpz_divexact_ui(e, e, 3); for (unsigned long b = 2;; b++) { mpz_set_ui(g, b); mpz_powm(w, g, e, n); if (mpz_cmp_ui(w, 1)) break; }
+		mpz_set(lam[0], w); mpz_mul(lam[1], w, w); mpz_mod(lam[1], lam[1], n); mpz_clears(g, e, w, NULL); }
+	bn_t k, k0, k1, bn; bn_new(k); bn_new(k0); bn_new(k1); bn_new(bn); if (!vf_bn_set(k, c->v[1])) return; vf_bn_set(bn, n);
+	VF_TRY(th, bn_rec_glv(k0, k1, k, bn, ep_curve_get_v1(), ep_curve_get_v2())); transitions++;
+	if (th) { vf_fail(NULL, "bn_rec_glv raised %d", th); return; }
+	mpz_t a0, a1, t; mpz_inits(a0, a1, t, NULL); vf_bn_get(a0, k0); vf_bn_get(a1, k1); size_t half = (mpz_sizeinbase(n, 2) + 1) / 2 + 2;
+	if (mpz_sizeinbase(a0, 2) > half || mpz_sizeinbase(a1, 2) > half) vf_fail(NULL, "bn_rec_glv: a half has %zu / %zu bits, more than %zu (sqrt of the order)", mpz_sizeinbase(a0, 2), mpz_sizeinbase(a1, 2), half);
+	int ok[2]; for (int i = 0; i < 2; i++) { mpz_mul(t, a1, lam[i]); mpz_add(t, t, a0); mpz_sub(t, t, c->v[1]); mpz_mod(t, t, n); ok[i] = !mpz_sgn(t); }
+	if (which < 0 && ok[0] != ok[1]) which = ok[0] ? 0 : 1;
+	if (!ok[0] && !ok[1]) vf_fail(NULL, "bn_rec_glv: k0 + k1 * lambda != k (mod n) for both roots lambda");
+	else if (which >= 0 && !ok[which]) vf_fail(NULL, "bn_rec_glv: the decomposition uses the other root lambda than for the previous scalars of this curve");
+	mpz_clears(a0, a1, t, NULL);
+}
+#endif
+
 static void run_case(vf_case *c) {
 	vf_nontrivial();
+#ifdef HAVE_GLV
+	if (IS("glv")) { do_glv(c); return; }
+#endif
 	if (IS("mod")) do_mod(c); else if (IS("mxp")) do_mxp(c); else if (IS("mxp_sim")) do_mxp_sim(c); else if (IS("gcd")) do_gcd(c);
 	else if (IS("inv")) do_inv(c); else if (IS("inv_sim")) do_inv_sim(c); else if (IS("smb")) do_smb(c); else if (IS("srt")) do_srt(c);
 	else if (IS("prime")) do_prime(c); else if (IS("gen")) do_gen(c); else if (IS("lag")) do_lag(c);
@@ -583,6 +611,21 @@ static void enumerate(void) {
 			for (long w = 2; w <= 8; w++) { rec("bn_rec_win", a, w); rec("bn_rec_slw", a, w); rec("bn_rec_naf", a, w); K.op = "bn_rec_reg"; K.n = 3; mpz_set(K.v[0], a); mpz_set_si(K.v[1], w); mpz_set_si(K.v[2], 256); vf_run(&K); } }
 		vf_bound_done("recodings");
 	}
+#ifdef HAVE_GLV
+	if (vf_bound_on("glv-decomposition")) {
+		/* scalars: alphabet, and for each lattice entry v the scalars whose rounded quotient round(k v / 2^(bits+1)) has a low digit of all ones with the
+		 * rounding bit set (carry out of the lowest digit), for 64 high parts */
+		static const int CID[] = {SECG_K256, BN_P256, SM9_P256};
+		for (unsigned ci = 0; ci < 3; ci++) { int th; VF_TRY(th, ep_param_set(CID[ci])); if (th) continue; bn_t r; bn_new(r); ep_curve_get_ord(r); mpz_t n, v, q, k; mpz_inits(n, v, q, k, NULL); vf_bn_get(n, r); size_t bits = mpz_sizeinbase(n, 2);
+			for (int vi = 0; vi < 2; vi++) { vf_bn_get(v, vi ? &ep_curve_get_v2()[0] : &ep_curve_get_v1()[0]); mpz_abs(v, v); if (!mpz_sgn(v)) continue;
+				for (unsigned long h = 0; h < 64; h++) for (int lowones = 1; lowones <= 2; lowones++) if (vf_mine()) { /* Q = h' * 2^(64 lowones) + (2^(64 lowones) - 1) */
+					mpz_set_ui(q, h * 0x9E3779B1UL + 1); mpz_mul_2exp(q, q, 64UL * (unsigned long)lowones); mpz_set_ui(k, 1); mpz_mul_2exp(k, k, 64UL * (unsigned long)lowones); mpz_sub_ui(k, k, 1); mpz_add(q, q, k);
+					mpz_mul_2exp(q, q, bits + 1); mpz_setbit(q, bits); mpz_cdiv_q(k, q, v); if (mpz_cmp(k, n) >= 0) continue; K.op = "glv"; K.n = 2; mpz_set_si(K.v[0], CID[ci]); mpz_set(K.v[1], k); vf_run(&K); mpz_sub_ui(K.v[1], k, 1); vf_run(&K); } }
+			for (int i = 0; i < pos.n; i++) if (vf_mine() && mpz_cmp(pos.v[i], n) < 0) { K.op = "glv"; K.n = 2; mpz_set_si(K.v[0], CID[ci]); mpz_set(K.v[1], pos.v[i]); vf_run(&K); mpz_sub(K.v[1], n, pos.v[i]); vf_run(&K); }
+			mpz_clears(n, v, q, k, NULL); }
+		vf_bound_done("glv-decomposition");
+	}
+#endif
 	vf_stat_add("transitions", transitions);
 	mpz_clears(a, b, m, t, NULL);
 }
